@@ -93,7 +93,8 @@ PROPS = {
                    "the block's epoch schedule) or the pre-genesis check + external verification succeeded; the closure with which the persistence "
                    "loop of EngineManagerRunner::run picks the block it hands to durable storage (lifted mechanically) returns exactly block "
                    "max(previously submitted + 1, durable head + 1) -- 'each submitted block directly follows the previously submitted one or "
-                   "the current durable head' -- and returns it as soon as it is readable.",
+                   "the current durable head' -- and returns it as soon as it is readable; EngineManager::get_block returns, from the cache or "
+                   "from durable storage (A5: the store answers with the number asked for), only THE block with the requested number.",
         level_note="Not decided: interleavings between tasks (each closure run under the watch channel's lock is taken as atomic, A4), the "
                    "two statements around the persist loop's closure (queue_next = block.number().next(); interface.queue_next_block) which "
                    "sit in a nested async block of a scope::run! macro, the gossip runner's number check, durability of the EngineInterface (A5; incoming persisted states are assumed to pass BlockStoreState::verify). "
